@@ -412,9 +412,12 @@ func c17KeyStore(t Tier, add func(kind, sig string, odd int, format string, a ..
 	kdfs := []opt{{"pbkdf2", "pbkdf2"}, {"scrypt", "scrypt"}}
 	prfs := []opt{{"hmac-sha256", "hmac-sha256"}, {"other", "hmac-sha512"}}
 	macs := []opt{{"valid", "valid"}, {"wrong", strings.Repeat("00", 32)}, {"nothex", "zz"}, {"empty", ""}}
-	ivs := []opt{{"16", 16}, {"0", 0}, {"15", 15}, {"17", 17}, {"nothex", -1}}
-	cts := []opt{{"32", 32}, {"0", 0}, {"1", 1}, {"nothex", -1}}
-	salts := []opt{{"32", 32}, {"0", 0}, {"nothex", -1}}
+	h3c := func(n int) string { return strings.Repeat("3c", n) }
+	// strings of the right LENGTH that are not hex (first / last character), of odd length, in upper case
+	ivs := []opt{{"16", 16}, {"0", 0}, {"15", 15}, {"17", 17}, {"nothex", -1},
+		{"32chars-first-nothex", "z" + h3c(16)[1:]}, {"32chars-last-nothex", h3c(16)[:31] + "g"}, {"31chars", h3c(16)[:31]}, {"33chars", h3c(16) + "3"}, {"uppercase", strings.ToUpper(h3c(16))}, {"0x-prefixed-32chars", "0x" + h3c(15)}}
+	cts := []opt{{"32", 32}, {"0", 0}, {"1", 1}, {"nothex", -1}, {"64chars-last-nothex", h3c(32)[:63] + "g"}, {"63chars", h3c(32)[:63]}}
+	salts := []opt{{"32", 32}, {"0", 0}, {"nothex", -1}, {"64chars-first-nothex", "z" + h3c(32)[1:]}, {"63chars", h3c(32)[:63]}}
 	cs := []opt{{"1", 1}, {"0", 0}, {"-1", -1}, {"2", 2}}
 	dklens := []opt{{"32", 32}, {"-1", -1}, {"0", 0}, {"16", 16}, {"31", 31}, {"33", 33}, {"4096", 4096}}
 	if t.Thorough {
@@ -427,7 +430,11 @@ func c17KeyStore(t Tier, add func(kind, sig string, odd int, format string, a ..
 	if t.Thorough {
 		maxOdd = 6
 	}
-	hexOf := func(n int) string {
+	hexOf := func(v any) string {
+		if str, ok := v.(string); ok {
+			return str
+		}
+		n := v.(int)
 		if n < 0 {
 			return "xyz"
 		}
@@ -458,9 +465,9 @@ func c17KeyStore(t Tier, add func(kind, sig string, odd int, format string, a ..
 		f.Crypto.Cipher = dims[1][idx[1]].v.(string)
 		f.Crypto.KDF = dims[2][idx[2]].v.(string)
 		f.Crypto.KDFParams.PRF = dims[3][idx[3]].v.(string)
-		f.Crypto.CipherParams.IV = hexOf(dims[5][idx[5]].v.(int))
-		f.Crypto.CipherText = hexOf(dims[6][idx[6]].v.(int))
-		f.Crypto.KDFParams.Salt = hexOf(dims[7][idx[7]].v.(int))
+		f.Crypto.CipherParams.IV = hexOf(dims[5][idx[5]].v)
+		f.Crypto.CipherText = hexOf(dims[6][idx[6]].v)
+		f.Crypto.KDFParams.Salt = hexOf(dims[7][idx[7]].v)
 		f.Crypto.KDFParams.C = dims[8][idx[8]].v.(int)
 		f.Crypto.KDFParams.DKLen = dims[9][idx[9]].v.(int)
 		var labels []string
